@@ -36,7 +36,8 @@ _n = [0]
 
 def gen_cases(tier, seed):
     c = []
-    for n in range(1, 21):
+    T = tier == 'thorough'
+    for n in range(1, 61 if T else 21):
         c.append({'k': 'wait', 'n': n})
     c += [{'k': 'wait', 'n': 0, 'allow_zero': True}, {'k': 'wait_rt', 'w': 4, 'allow_zero': False}, {'k': 'wait_rt', 'w': 3, 'allow_zero': True},
           {'k': 'waiter', 'a': 3, 'b': 7}, {'k': 'waiter', 'a': 1, 'b': 2}, {'k': 'waiter', 'a': 5, 'b': 1}, {'k': 'waiter_rt', 'w': 3}]
@@ -48,13 +49,14 @@ def gen_cases(tier, seed):
     for lim in range(0, 10):
         c.append({'k': 'counter', 'limit': lim})
     c.append({'k': 'counter_rt', 'w': 3})
-    for p in range(2, 10):
+    for p in range(2, 24 if T else 10):
         for tas in (False, True):
             for req in (False, True):
-                c.append({'k': 'clkdiv', 'p': p, 'tas': tas, 'req': req, 'ds': (p + tas) % 2 == 0})
+                for ds in ((False, True) if T else ((p + tas) % 2 == 0,)):
+                    c.append({'k': 'clkdiv', 'p': p, 'tas': tas, 'req': req, 'ds': ds})
     c.append({'k': 'clkdiv_rt', 'w': 3})
-    for f in range(1, 6):
-        for s in range(1, 6):
+    for f in range(1, 10 if T else 6):
+        for s in range(1, 10 if T else 6):
             if tier == 'thorough' or (f + 2 * s) % 3 == 0 or f == s:
                 c.append({'k': 'toggle', 'f': f, 's': s, 'fs': (f + s) % 2 == 0, 'ds': f % 2 == 0, 'req': s % 2 == 0})
     c += [{'k': 'toggle_rt', 'w': 3}, {'k': 'toggle_rt', 'w': 2}]
@@ -62,9 +64,9 @@ def gen_cases(tier, seed):
         for init in (False, True):
             c.append({'k': 'debounce', 'p': p, 'init': init})
     # every utility also under an active-low reset (enable/disable of dividers goes through ctx.or_reset)
-    c += [dict(x, al=True) for i, x in enumerate(c) if i % 3 == 0 or x['k'] in ('clkdiv', 'toggle') and i % 2 == 0]
+    c += [dict(x, al=True) for i, x in enumerate(c) if T or i % 3 == 0 or x['k'] in ('clkdiv', 'toggle') and i % 2 == 0]
     # ... and under an asynchronous reset (derived contexts of dividers inherit it: reset acts without a clock edge)
-    c += [dict(x, asyn=True, al=(i % 2 == 0)) for i, x in enumerate(c) if x['k'] in ('clkdiv', 'toggle') and not x.get('al') and i % 3 == 1]
+    c += [dict(x, asyn=True, al=(i % 2 == 0)) for i, x in enumerate(c) if x['k'] in ('clkdiv', 'toggle') and not x.get('al') and (T or i % 3 == 1)]
     for i, x in enumerate(c):
         x['seed'] = seed * 131 + i
     return c
